@@ -185,7 +185,8 @@ def build_gates(rec):
 def build(case):
     return {"circ": build_circuit(case["circ"]), "layout": build_value(case["layout"]), "psi0": build_value(case["psi0"]),
             "shots": build_value(case["shots"]), "device": build_value(case["device"]),
-            "nqubit": build_value(case["nqubit"]), "gates": build_gates(case["gates"]), "cls": case["cls"]}
+            "nqubit": build_value(case["nqubit"]), "gates": build_gates(case["gates"]), "cls": case["cls"],
+            "np_seed": case.get("np_seed", 0)}
 
 
 # ------------------------------------------------------------------------------------------------ running the real code
@@ -204,6 +205,14 @@ def run_real(objs):
     sim = R.Sim(gates=objs["gates"], CircuitClass=R.classes[objs["cls"]], parallel=False)
     rec = {"stage": "pre", "mean": None}
     orig = sim._perform_simulation
+    orig_prep = sim._preprocess_circuit
+
+    def spy_prep(*a, **k):
+        rec["stage"] = "prep"               # _preprocess_circuit: its only raising statement is modelled (preprocessCheck)
+        out = orig_prep(*a, **k)
+        rec["stage"] = "prep-done"
+        return out
+    sim._preprocess_circuit = spy_prep
 
     def spy(*a, **k):
         rec["stage"] = "sim"
@@ -212,6 +221,7 @@ def run_real(objs):
         rec["stage"] = "post"
         return out
     sim._perform_simulation = spy
+    np.random.seed(objs.get("np_seed", 0))      # the noisy gate sets draw from numpy's global generator
     try:
         res = sim.run(objs["circ"], objs["layout"], objs["psi0"], objs["shots"], objs["device"], objs["nqubit"])
     except BaseException as e:          # noqa  (AssertionError etc. are part of what is observed)
@@ -294,19 +304,22 @@ def agree(real, ans):
 # ------------------------------------------------------------------------------------------------ the oracle
 
 def circuit_facts(c):
-    """(measured qubit labels in instruction order, labels used by gates/measures) — by the oracle's own reading:
-    a qubit is used when a non-delay, non-barrier instruction acts on it"""
-    meas, used = [], []
+    """(measured qubit labels in instruction order, labels used by gates/measures, labels touched by anything but a
+    delay) — the oracle's own reading: a qubit is certainly used when a gate or a measurement acts on it, certainly not
+    used when only delays act on it; a qubit touched by barriers only is left undecided"""
+    meas, used, touched = [], [], []
     for inst in c.data:
         name = inst.operation.name
         qs = [c.find_bit(q).index for q in inst.qubits]
         if name == "measure":
             meas.append(qs[0])
-        if name not in ("delay", "barrier"):
+        if name != "delay":
             for q in qs:
-                if q not in used:
+                if name != "barrier" and q not in used:
                     used.append(q)
-    return meas, used
+                if q not in touched:
+                    touched.append(q)
+    return meas, used, touched
 
 
 def classify(objs):
@@ -316,7 +329,7 @@ def classify(objs):
     circ, psi0, shots, device, nqubit = objs["circ"], objs["psi0"], objs["shots"], objs["device"], objs["nqubit"]
     named = []
     is_qc = isinstance(circ, R.QuantumCircuit)
-    meas, used = circuit_facts(circ) if is_qc else ([], [])
+    meas, used, touched = circuit_facts(circ) if is_qc else ([], [], [])
     if is_qc and not meas:
         named.append("no-measurement")
     if not isinstance(shots, numbers.Integral):
@@ -330,12 +343,13 @@ def classify(objs):
             want = (2 ** int(nqubit),) if nqubit >= 0 else None
             if want is None or tuple(np.shape(psi0)) != want:
                 named.append("psi0-length")
-        if is_qc and nqubit > len(used):
+        if is_qc and nqubit > len(touched):
             named.append("more-qubits-than-used")
         if isinstance(device, collections.abc.Mapping) and "T1" in device and hasattr(device["T1"], "__len__") \
                 and nqubit > len(device["T1"]):
             named.append("more-qubits-than-device")
     strict = (not named and is_qc and type(shots) in (int, bool) and type(nqubit) is int and nqubit == len(used)
+              and len(touched) == len(used)
               and isinstance(psi0, np.ndarray) and bool(np.all(np.isfinite(psi0))) and bool(np.any(psi0 != 0))
               and isinstance(device, dict) and all(k in device for k in DEVKEYS)
               and all(hasattr(device[k], "__len__") and len(device[k]) > max(used) for k in DEVKEYS[:-1])
@@ -542,6 +556,9 @@ def gen_unspecified(rng):
     for cls in CLASSES:
         mk("nqubit < used qubits", n=3, cls=cls, nqubit=V("int", v=2), psi0=V("ndarray", shape=[4]))
         mk("nqubit < used qubits (1 of 2)", n=2, cls=cls, nqubit=V("int", v=1), psi0=V("ndarray", shape=[2]))
+    for cls in CLASSES:          # the extra qubit carries one-qubit gates only and is not measured: nothing raises in the layered classes
+        c = mk("nqubit < used qubits, third qubit idle-ish", n=3, cls=cls, nqubit=V("int", v=2), psi0=V("ndarray", shape=[4]))
+        c["circ"] = V("qc", nreg=3, nclbits=2, ops=[["sx", [0]], ["cx", [0, 1]], ["sx", [2]], ["measure", [1], 0], ["measure", [0], 1]])
     mk("device {}", device=V("device", name="ibm_kyiv", drop=DEVKEYS))
     mk("device without T1", device=V("device", name="ibm_kyiv", drop=["T1"]))
     mk("device without T1, nqubit > used", device=V("device", name="ibm_kyiv", drop=["T1"]), nqubit=V("int", v=3),
@@ -680,7 +697,7 @@ def signature(case, objs, real, cat, why):
     if cat == "valid" and real["exc"] == "AssertionError":
         pair = derived_pcr_negative(case, objs)
         if pair:
-            return {"kind": "nan-cr-error", "derived_p_cr_negative": True}
+            return {"kind": "nan-cr-error", "derived_p_cr_negative": True, "device": case["device"].get("name"), "pair": pair}
     if cat == "valid" and real["kind"] == "err":
         return {"kind": "valid-call-raises", "exc": real["exc"], "stage": real["stage"], "cls": case["cls"]}
     if cat == "named":
@@ -702,11 +719,14 @@ def main(ctx):
     th = ctx.thorough
     cases = []
     # ---- corpus (designed edge cases / past disagreements) runs first
+    for psi0 in (V("list", n=3), V("tuple", n=8), V("list", n=0)):       # D20: an initial state of the wrong length that is not an ndarray
+        c = base_case(rng, 2); c["family"] = "malformed"; c["psi0"] = psi0; c["defects"] = ["psi0"]
+        cases.append(c)
     cases += gen_unspecified(rng)
     cases += gen_r2(th)
     # ---- valid stream
     gate_sets = ["noise_free", "standard", {"inj": 11, "kind": "pos"}, {"inj": 12, "kind": "complex"}]
-    per = 24 if th else 5
+    per = 24 if th else 6
     idx = 0
     for cls in CLASSES:
         for g in gate_sets:
@@ -725,10 +745,12 @@ def main(ctx):
     d7 = base_case(rng, 1, cls="Circuit"); d7["family"] = "d7-probe"
     cases.append(d7)
 
+    for i, c in enumerate(cases):
+        c["np_seed"] = (ctx.seed * 100003 + i) % (2 ** 31)
     reqs, reals, objs_l, verdicts = [], [], [], []
     hist = collections.Counter(); exc_hist = collections.Counter(); cat_hist = collections.Counter()
     size_hist = collections.Counter(); cls_hist = collections.Counter(); meas_hist = collections.Counter()
-    nontrivial = set(); improper_results = []
+    nontrivial = set(); improper_results = []; repeated = []; sim_ok = 0
     for case in cases:
         objs = build(case)
         real = run_real(objs)
@@ -749,6 +771,16 @@ def main(ctx):
                 nontrivial.add(core.sha(describe(case)))
         elif case["family"] == "malformed":
             nontrivial.add(core.sha(describe(case)))
+        if case["family"] == "malformed" and cat != "named":
+            raise RuntimeError("generator/oracle inconsistency: malformed recipe not recognised as a named class: " + json.dumps(case)[:300])
+        if cat.startswith("valid") and real["mean"] is not None:
+            mv = np.asarray(real["mean"])
+            if mv.shape == (2 ** objs["nqubit"],) and bool(np.all(mv >= 0)) and float(mv.sum()) > 0:
+                sim_ok += 1
+            elif not np.any(np.isnan(mv)):
+                raise RuntimeError("simulation stage returned something that is not a non-negative vector of length 2^nqubit")
+        if cat == "valid-repeated-measure" and real["kind"] == "ok":
+            repeated.append({"cls": case["cls"], "measured": classify(objs)[2]["meas"], "keys": list(real["result"].keys())})
         if cat == "unspecified" and real["kind"] == "ok" and case["family"] == "unspecified":
             res = real["result"]
             named, strict, facts = classify(objs)
@@ -796,6 +828,8 @@ def main(ctx):
     cov["correspondence_mismatches"] = len(mism) + len(mmis)
     cov["mismatches_explained_by_pinned_tree_model"] = sum(1 for v in legacy.values() if v)
     cov["unspecified_calls_returning_improper_mapping"] = improper_results[:12]
+    cov["repeated_measure_results"] = repeated[:6]
+    cov["valid_cases_with_nonnegative_positive_total_sim_vector"] = sim_ok
     cov["value_tolerance"] = TOL
     cov["trusted_base"] += [
         "hand-written model QG/Model/RunValidate.lean, tied on every run by the differential correspondence described in "
